@@ -137,6 +137,25 @@ pub fn checkpoint_and_compare(rep: &mut Report, p: &Params, a: &mut Inst, histor
             _ => {}
         }
     }
+    // the original has moved on by now: restoring the checkpoint *into it* (serde's in-place path, which may
+    // reuse what the target already holds) must give the checkpointed state again, byte for byte
+    match a.restore_in_place(&bytes) {
+        Ok(()) => match a.ser() {
+            Ok(again) if again == bytes => rep.count("in_place_restores_into_an_advanced_instance"),
+            Ok(_) => {
+                fail(rep, p, "in_place_restore_differs", tag, format!("{}: the checkpoint taken after {} ops, restored in place into the instance that had since consumed {} more inputs, does not serialize back to the same bytes", p.label(), history.len(), cont.len()), &full, &[], 0);
+                return false;
+            }
+            Err(e) => {
+                fail(rep, p, "serialize_failed", tag, format!("{}: serialize after an in-place restore failed: {}", p.label(), e.0), &full, &[], 0);
+                return false;
+            }
+        },
+        Err(e) => {
+            fail(rep, p, "in_place_restore_failed", tag, format!("{}: restoring its own checkpoint in place failed: {}", p.label(), e.0), &full, &[], 0);
+            return false;
+        }
+    }
     rep.count(if bit_identical { "continuations_bit_identical" } else { "continuations_equal_within_1e-12_but_not_bitwise" });
     true
 }
@@ -341,7 +360,22 @@ fn run_dataitem(ctx: &Ctx) -> Report {
 }
 
 fn run_huge_periods(ctx: &Ctx) -> Report {
-    let jobs = crate::common::huge_period_params();
+    let mut jobs = crate::common::huge_period_params();
+    // windowed indicators with windows of 5 000 and 70 001 values (longer than any element count a reader
+    // might pre-allocate or cap at)
+    for kind in ALL_KINDS {
+        if kind.windowed() {
+            for n in [5_000usize, 70_001] {
+                // (the longer one only where a step costs O(1))
+                if n > 5_000 && !matches!(kind, Kind::Sma | Kind::Sd | Kind::Bb | Kind::Roc | Kind::Min | Kind::Max) {
+                    continue;
+                }
+                let mut p = variant(kind, 3);
+                p.p[0] = n;
+                jobs.push(p);
+            }
+        }
+    }
     let seed = ctx.seed;
     par_run(jobs, ctx.threads, move |p, rep| {
         if Inst::try_new(p).is_err() {
@@ -352,9 +386,11 @@ fn run_huge_periods(ctx: &Ctx) -> Report {
             if !bars && !p.kind.has_scalar() {
                 continue;
             }
-            let hist = stream(bars, 9, seed ^ 5);
+            let big_window = p.kind.windowed() && p.p[0] >= 5_000 && p.p[0] < (1 << 30);
+            let hist = stream(bars, if big_window { p.p[0] + 9 } else { 9 }, seed ^ 5);
             let cont = stream(bars, 9, seed ^ 6);
-            for cut in [0usize, 1, 9] {
+            let cuts: Vec<usize> = if big_window { vec![1, hist.len()] } else { vec![0, 1, 9] };
+            for cut in cuts {
                 let mut a = Inst::new(p);
                 for op in &hist[..cut] {
                     a.apply(op);
